@@ -1,5 +1,8 @@
 import VlsModel.Model.Bolt3Htlc
 import VlsModel.Gen.FnTxUtil
+import VlsModel.Gen.FnTxInfo
+import VlsModel.Gen.FnChannel
+import VlsModel.Gen.FnChannelOic
 import VlsModel.Lemmas.FnGen
 /-
 C04 — `Bolt3.estimateFeerate` (the feerate the signer infers for a second-level HTLC transaction,
@@ -24,5 +27,169 @@ theorem C04_fn_estimate_feerate (fee weight : Nat) (hw : weight ≠ 0) :
 theorem C04_fn_estimate_feerate_weight_zero (fee : Nat) :
     Gen.FnTxUtil.estimate_feerate_per_kw fee 0 = .error .panic := by
   simp [Gen.FnTxUtil.estimate_feerate_per_kw, Rs.udiv, Rs.panic, bind, Except.bind]
+
+/-! ## `ChannelSetup::{is_static_remotekey, is_anchors, is_zero_fee_htlc}` (channel.rs) = the model's `CType` predicates
+
+The decoder (`handle_output`, the HTLC templates), the validator and `features()` branch on these; the model's
+`CType.isAnchors` / `isZeroFee` are proved equal to the bodies regenerated from `vls-core/src/channel.rs`
+(`Gen/FnChannel.lean`; the generated `CommitmentType` lists the enum's variants in declaration order). -/
+
+def toGenCType : Bolt3.CType → Gen.FnChannel.CommitmentType
+  | .legacy => .Legacy
+  | .staticRemoteKey => .StaticRemoteKey
+  | .anchors => .Anchors
+  | .anchorsZeroFee => .AnchorsZeroFeeHtlc
+
+/-- every variant of the source's enum is the image of a model type: the model misses no commitment type -/
+theorem C04_fn_ctype_surjective (g : Gen.FnChannel.CommitmentType) : ∃ t, toGenCType t = g := by
+  cases g
+  · exact ⟨.legacy, rfl⟩
+  · exact ⟨.staticRemoteKey, rfl⟩
+  · exact ⟨.anchors, rfl⟩
+  · exact ⟨.anchorsZeroFee, rfl⟩
+
+theorem C04_fn_is_anchors (t : Bolt3.CType) :
+    Gen.FnChannel.ChannelSetup.is_anchors ⟨toGenCType t⟩ = t.isAnchors := by
+  cases t <;> rfl
+
+theorem C04_fn_is_zero_fee_htlc (t : Bolt3.CType) :
+    Gen.FnChannel.ChannelSetup.is_zero_fee_htlc ⟨toGenCType t⟩ = t.isZeroFee := by
+  cases t <;> rfl
+
+/-- `is_static_remotekey` = "not Legacy" (the model's `canon` builds the same p2wpkh to_remote for Legacy and
+    StaticRemoteKey: the payment key is an input of the model, `Keys.cPayment`) -/
+theorem C04_fn_is_static_remotekey (t : Bolt3.CType) :
+    Gen.FnChannel.ChannelSetup.is_static_remotekey ⟨toGenCType t⟩ = decide (t ≠ .legacy) := by
+  cases t <;> rfl
+
+/-! ## `CommitmentInfo::{new, has_to_broadcaster, has_to_countersigner}` (tx.rs) and the model's `Info`
+
+The model's `Info` is an abstraction of the decoder's accumulator `CommitmentInfo`: one flag per side instead of the
+optional key / address, counters instead of the HTLC lists.  `absInfo` is that abstraction, defined on the structure
+regenerated from the source (`Gen/FnTxInfo.lean`, all twelve fields: `new` writes them all); the singularity tests of
+`handle_output` read `has_to_broadcaster` / `has_to_countersigner`. -/
+
+def absInfo {A P : Type} (g : Gen.FnTxInfo.CommitmentInfo A P) : Bolt3.Info :=
+  { hasCs := g.to_countersigner_address.isSome || g.to_countersigner_pubkey.isSome,
+    csVal := g.to_countersigner_value_sat,
+    hasBc := g.to_broadcaster_delayed_pubkey.isSome,
+    bcVal := g.to_broadcaster_value_sat,
+    anchorsB := g.to_broadcaster_anchor_count,
+    anchorsC := g.to_countersigner_anchor_count,
+    nOffered := g.offered_htlcs.length,
+    nReceived := g.received_htlcs.length }
+
+/-- `CommitmentInfo::new(_)` is the model's initial accumulator -/
+theorem C04_fn_commitment_info_new (A P : Type) (b : Bool) :
+    absInfo (Gen.FnTxInfo.CommitmentInfo.new b : Gen.FnTxInfo.CommitmentInfo A P) = Bolt3.Info.init := by
+  rfl
+
+theorem C04_fn_has_to_broadcaster {A P : Type} (g : Gen.FnTxInfo.CommitmentInfo A P) :
+    Gen.FnTxInfo.CommitmentInfo.has_to_broadcaster g = (absInfo g).hasBc := by
+  rfl
+
+/-- to_remote is recorded as an address (p2wpkh) *or* a key (delayed to_remote): either one makes a second one refused -/
+theorem C04_fn_has_to_countersigner {A P : Type} (g : Gen.FnTxInfo.CommitmentInfo A P) :
+    Gen.FnTxInfo.CommitmentInfo.has_to_countersigner g = (absInfo g).hasCs := by
+  rfl
+
+/-! ## `Channel::htlcs_info2_to_oic` (channel.rs): the HTLC lists handed to LDK's builder
+
+Both entry points turn the (offered, received) `HTLCInfo2` lists into `HTLCOutputInCommitment`s with this function:
+offered first, `amount_msat = value_sat * 1000` (plain `*`: overflow-checked), the `offered` flag per list.  The model's
+`rawElems` maps `htlcElem · true` over the offered and `htlcElem · false` over the received list in the same order, and
+`buildPanics` is exactly the overflow of this function. -/
+
+def toGenHtlc (h : Bolt3.Htlc) : Gen.FnChannelOic.HTLCInfo2 Nat := ⟨h.value, h.hash, h.cltv⟩
+
+def oicOf (offered : Bool) (h : Bolt3.Htlc) : Gen.FnChannelOic.HTLCOutputInCommitment Nat :=
+  { offered := offered, amount_msat := h.value * 1000, cltv_expiry := h.cltv, payment_hash := h.hash,
+    transaction_output_index := none }
+
+def mkOic (b : Bool) (t : Nat) (x : Gen.FnChannelOic.HTLCInfo2 Nat) : Gen.FnChannelOic.HTLCOutputInCommitment Nat :=
+  { offered := b, amount_msat := t, cltv_expiry := x.cltv_expiry, payment_hash := x.payment_hash,
+    transaction_output_index := none }
+
+theorem foldlM_push {α β : Type} (f : List β → α → Rs.M (List β)) (v : α → Nat) (mk : Nat → α → β)
+    (hf : ∀ acc x, f acc x = (Rs.umul Rs.U64_MAX (v x) 1000 >>= fun t => pure (acc ++ [mk t x]))) :
+    ∀ (l : List α) (acc : List β),
+      List.foldlM f acc l =
+        if l.all (fun x => decide (v x * 1000 ≤ Rs.U64_MAX)) then .ok (acc ++ l.map (fun x => mk (v x * 1000) x))
+        else .error .overflow := by
+  intro l
+  induction l with
+  | nil => intro acc; simp [List.foldlM]
+  | cons x xs ih =>
+    intro acc
+    rw [List.foldlM_cons, hf]
+    by_cases hx : v x * 1000 ≤ Rs.U64_MAX
+    · simp [Rs.umul, hx, ih, List.all_cons, List.append_assoc]
+    · simp [Rs.umul, hx, Rs.overflow, List.all_cons]
+
+theorem oic_two_folds {α β : Type} (f g : List β → α → Rs.M (List β)) (v : α → Nat) (mk1 mk2 : Nat → α → β)
+    (hf : ∀ acc x, f acc x = (Rs.umul Rs.U64_MAX (v x) 1000 >>= fun t => pure (acc ++ [mk1 t x])))
+    (hg : ∀ acc x, g acc x = (Rs.umul Rs.U64_MAX (v x) 1000 >>= fun t => pure (acc ++ [mk2 t x])))
+    (l1 l2 : List α) :
+    (List.foldlM f [] l1 >>= fun h => List.foldlM g h l2) =
+      if (l1 ++ l2).all (fun x => decide (v x * 1000 ≤ Rs.U64_MAX)) then
+        .ok (l1.map (fun x => mk1 (v x * 1000) x) ++ l2.map (fun x => mk2 (v x * 1000) x))
+      else .error .overflow := by
+  rw [foldlM_push f v mk1 hf]
+  by_cases h1 : l1.all (fun x => decide (v x * 1000 ≤ Rs.U64_MAX)) = true
+  · simp only [h1, if_true, Rs.bind_ok, List.nil_append]
+    rw [foldlM_push g v mk2 hg]
+    by_cases h2 : l2.all (fun x => decide (v x * 1000 ≤ Rs.U64_MAX)) = true
+    · simp [h1, h2, List.all_append]
+    · simp [h1, h2, List.all_append]
+  · simp [h1, List.all_append]
+
+theorem C04_fn_htlcs_info2_to_oic (off recv : List Bolt3.Htlc) :
+    Gen.FnChannelOic.Channel.htlcs_info2_to_oic (off.map toGenHtlc) (recv.map toGenHtlc) =
+      if (off ++ recv).all (fun h => decide (h.value * 1000 ≤ Rs.U64_MAX)) then
+        .ok (off.map (oicOf true) ++ recv.map (oicOf false))
+      else .error .overflow := by
+  unfold Gen.FnChannelOic.Channel.htlcs_info2_to_oic
+  refine (oic_two_folds _ _ (fun x => x.value_sat) (mkOic true) (mkOic false) ?_ ?_
+    (off.map toGenHtlc) (recv.map toGenHtlc)).trans ?_
+  · intro acc x; rfl
+  · intro acc x; rfl
+  · generalize Rs.U64_MAX = M
+    have e1 : ∀ l : List Bolt3.Htlc, (l.map toGenHtlc).all (fun x => decide (x.value_sat * 1000 ≤ M))
+        = l.all (fun h => decide (h.value * 1000 ≤ M)) := by
+      intro l; induction l with
+      | nil => rfl
+      | cons a l ih => simp only [List.map_cons, List.all_cons, ih, toGenHtlc]
+    have e2 : ∀ (b : Bool) (l : List Bolt3.Htlc),
+        (l.map toGenHtlc).map (fun x => mkOic b (x.value_sat * 1000) x) = l.map (oicOf b) := by
+      intro b l; induction l with
+      | nil => rfl
+      | cons a l ih => simp only [List.map_cons, ih]; rfl
+    rw [List.all_append, List.all_append, e1, e1, e2, e2]
+
+/-- the overflow of `htlcs_info2_to_oic` is the HTLC part of the model's `buildPanics` (the other part is
+    `INITIAL_COMMITMENT_NUMBER - commitment_number`), and each converted entry carries the HTLC's fields -/
+theorem C04_fn_oic_buildPanics (c : Bolt3.Content) :
+    (Gen.FnChannelOic.Channel.htlcs_info2_to_oic (c.offered.map toGenHtlc) (c.received.map toGenHtlc) = .error .overflow)
+      ↔ (c.offered ++ c.received).any (fun h => decide (h.value * 1000 ≥ Bolt3.U64_LIMIT)) = true := by
+  rw [C04_fn_htlcs_info2_to_oic]
+  have key : (c.offered ++ c.received).all (fun h => decide (h.value * 1000 ≤ Rs.U64_MAX)) =
+      !(c.offered ++ c.received).any (fun h => decide (h.value * 1000 ≥ Bolt3.U64_LIMIT)) := by
+    have e : ∀ h : Bolt3.Htlc, (!decide (h.value * 1000 ≤ Rs.U64_MAX)) = decide (h.value * 1000 ≥ Bolt3.U64_LIMIT) := by
+      intro h
+      by_cases hh : h.value * 1000 ≤ Rs.U64_MAX
+      · have : ¬ (h.value * 1000 ≥ Bolt3.U64_LIMIT) := by simp only [Rs.U64_MAX, Bolt3.U64_LIMIT] at *; omega
+        simp [hh, this]
+      · have : (h.value * 1000 ≥ Bolt3.U64_LIMIT) := by simp only [Rs.U64_MAX, Bolt3.U64_LIMIT] at *; omega
+        simp [hh, this]
+    rw [List.all_eq_not_any_not]
+    simp only [e]
+  rw [key]
+  cases (c.offered ++ c.received).any (fun h => decide (h.value * 1000 ≥ Bolt3.U64_LIMIT)) <;> simp
+
+theorem C04_fn_oic_fields (b : Bool) (h : Bolt3.Htlc) :
+    (oicOf b h).offered = b ∧ (oicOf b h).amount_msat / 1000 = h.value ∧ (oicOf b h).cltv_expiry = h.cltv ∧
+    (oicOf b h).payment_hash = h.hash := by
+  refine ⟨rfl, ?_, rfl, rfl⟩
+  simp [oicOf]
 
 end VlsModel.Props.C04Fn
